@@ -136,3 +136,33 @@ mutant("c08-steffensen-unguarded", "C08", "R8.6/roots::steffensen", (RT, "      
 mutant("c08-muller-start", "C08", "R8.7/", (RP, "Complex::<N::RealField>::new(initial.2.real(), initial.2.imaginary())", "Complex::<N::RealField>::new(initial.2.real(), initial.1.imaginary())"))
 mutant("c08-muller-test", "C08", "R8.2/roots::polynomial::muller_polynomial/success", (RP, "if step.abs() <= tol {\n            return Ok(p);", "if (p.abs() - poly_2.abs()).abs() <= tol {\n            return Ok(p);"))
 benign("c08-newton-refactor", "C08", (RT, "if adjustment.norm() <= tol {", "if (new_guess - guess).norm() <= tol {"))
+
+# ---- C11
+PM = "src/polynomial/mod.rs"
+mutant("c11-unit", "C11", "R11.5/Polynomial::idft/unit", (PM, "(N::zero() - N::one()).sqrt()", "(-N::one()).sqrt()"))
+mutant("c11-sub-tail-sign", "C11", "R11.1/Sub<Polynomial<N>> for Polynomial<N>/algebra", (PM, "    fn sub(mut self, rhs: Polynomial<N>) -> Polynomial<N> {\n        let min_order = self.coefficients.len().min(rhs.coefficients.len());\n        for (ind, val) in self.coefficients.iter_mut().take(min_order).enumerate() {\n            *val -= rhs.coefficients[ind];\n        }\n\n        for val in rhs.coefficients.iter().skip(min_order) {\n            self.coefficients.push(-*val);", "    fn sub(mut self, rhs: Polynomial<N>) -> Polynomial<N> {\n        let min_order = self.coefficients.len().min(rhs.coefficients.len());\n        for (ind, val) in self.coefficients.iter_mut().take(min_order).enumerate() {\n            *val -= rhs.coefficients[ind];\n        }\n\n        for val in rhs.coefficients.iter().skip(min_order) {\n            self.coefficients.push(*val);"))
+mutant("c11-linear-branch", "C11", "polynomial::multiply", (PM, "    if rhs.coefficients.len() == 2 {\n        let mut shifted = lhs * rhs.coefficients[1];\n        shifted.coefficients.insert(0, N::zero());\n        return shifted + lhs * rhs.coefficients[0];", "    if rhs.coefficients.len() == 2 {\n        let mut shifted = lhs * rhs.coefficients[0];\n        shifted.coefficients.insert(0, N::zero());\n        return shifted + lhs * rhs.coefficients[1];"))
+mutant("c11-bound", "C11", "R11.", (PM, "let bound = lhs.coefficients.len().max(rhs.coefficients.len()) * 2;", "let bound = lhs.coefficients.len().max(rhs.coefficients.len());"))
+mutant("c11-twiddle-sign", "C11", "R11.", (PM, "let angle = 2.0 * f64::consts::PI / m as f64;", "let angle = -2.0 * f64::consts::PI / m as f64;"))
+mutant("c11-idft-scale", "C11", "R11.", (PM, "N::from_f64(1.0 / len as f64).unwrap().real(),", "N::from_f64(1.0).unwrap().real(),"))
+mutant("c11-divassign", "C11", "R11.1/DivAssign", (PM, "    fn div_assign(&mut self, rhs: N) {\n        for val in &mut self.coefficients {\n            *val /= rhs;", "    fn div_assign(&mut self, rhs: N) {\n        for val in &mut self.coefficients {\n            *val *= rhs;"))
+mutant("c11-addassign-ref", "C11", "R11.1/AddAssign<&Polynomial<N>>", (PM, "    fn add_assign(&mut self, rhs: &Polynomial<N>) {\n        let min_order = self.coefficients.len().min(rhs.coefficients.len());\n        for (ind, val) in self.coefficients.iter_mut().take(min_order).enumerate() {\n            *val += rhs.coefficients[ind];\n        }\n\n        for val in rhs.coefficients.iter().skip(min_order) {", "    fn add_assign(&mut self, rhs: &Polynomial<N>) {\n        let min_order = self.coefficients.len().min(rhs.coefficients.len());\n        for (ind, val) in self.coefficients.iter_mut().take(min_order).enumerate() {\n            *val += rhs.coefficients[ind];\n        }\n\n        for val in rhs.coefficients.iter().skip(min_order + 1) {"))
+mutant("c11-bitrev", "C11", "R11.", (PM, "    result >>= 1;\n    result", "    result"))
+benign("c11-mul-refactor", "C11", (PM, "    fn mul(self, rhs: N) -> Polynomial<N> {\n        let mut coefficients = Vec::with_capacity(self.coefficients.len());\n        for val in &self.coefficients {\n            coefficients.push(*val * rhs);\n        }", "    fn mul(self, rhs: N) -> Polynomial<N> {\n        let mut coefficients = Vec::with_capacity(self.coefficients.len());\n        for val in self.coefficients.iter() {\n            coefficients.push(rhs * *val);\n        }"))
+
+# ---- C12 / C13
+mutant("c12-lead-term", "C12", "R12.", (PM, "*remainder.coefficients.last().unwrap() / *divisor.coefficients.last().unwrap();", "*remainder.coefficients.last().unwrap() / divisor.coefficients[0];"))
+mutant("c12-padding", "C12", "R12.", (PM, "let padding = temp.coefficients.len() - 1;", "let padding = temp.coefficients.len();"))
+mutant("c12-zero-guard", "C12", "R12.", (PM, "            return Err(\"Polynomial division: Can not divide by 0\".to_owned());", "            return Ok((Polynomial::new(), Polynomial::new()));"))
+mutant("c12-const-divisor", "C12", "R12.1", (PM, "let idivisor = N::from_f64(1.0).unwrap() / divisor.coefficients[0];", "let idivisor = divisor.coefficients[0];"))
+mutant("c12-loop-cond", "C12", "R12.", (PM, "        while remainder.coefficients.len() >= divisor.coefficients.len()\n", "        while remainder.coefficients.len() > divisor.coefficients.len()\n"))
+benign("c12-refactor", "C12", (PM, "            quotient += &temp;\n", "            quotient = &quotient + &temp;\n"))
+mutant("c13-purge", "C13", "R13.1/Polynomial::purge_coefficient", (PM, "            len if power >= len => {}\n            len if len == power + 1 && len != 1 => {", "            len if len == power && len != 1 => {"))
+mutant("c13-horner-skip", "C13", "R13.2/Polynomial::evaluate", (PM, "        for val in self.coefficients.iter().rev().skip(1) {\n            acc *= x;\n            acc += *val;", "        for val in self.coefficients.iter().rev().skip(1) {\n            acc += *val;\n            acc *= x;"))
+mutant("c13-deriv-horner", "C13", "R13.2/Polynomial::evaluate_derivative", (PM, "acc_deriv = acc_deriv * x + acc_eval;", "acc_deriv = acc_deriv * x + *val;"))
+mutant("c13-antiderivative", "C13", "R13.3/Polynomial::antiderivative", (PM, "N::from_f64(1.0 / (ind + 1) as f64).unwrap()", "N::from_f64(1.0 / (ind + 2) as f64).unwrap()"))
+mutant("c13-derivative-index", "C13", "R13.3/Polynomial::derivative", (PM, "for (i, val) in self.coefficients.iter().enumerate().skip(1) {\n            deriv_coeff.push(N::from_f64(i as f64).unwrap() * *val);", "for (i, val) in self.coefficients.iter().skip(1).enumerate() {\n            deriv_coeff.push(N::from_f64(i as f64).unwrap() * *val);"))
+mutant("c13-get-coefficient", "C13", "R13.1/Polynomial::get_coefficient", (PM, "if ind >= self.coefficients.len() {\n            N::zero()", "if ind > self.coefficients.len() {\n            N::zero()"))
+mutant("c13-integrate", "C13", "R13.3/Polynomial::integrate", (PM, "poly_anti.evaluate(upper) - poly_anti.evaluate(lower)", "poly_anti.evaluate(lower) - poly_anti.evaluate(upper)"))
+mutant("c13-from-slice", "C13", "R13.4", (PM, "coefficients: data.iter().rev().copied().collect(),", "coefficients: data.iter().copied().collect(),"))
+benign("c13-horner-refactor", "C13", (PM, "        for val in self.coefficients.iter().rev().skip(1) {\n            acc *= x;\n            acc += *val;", "        for val in self.coefficients.iter().rev().skip(1) {\n            acc = acc * x + *val;"))
